@@ -21,6 +21,16 @@ fn c08_user_equals_extended_system() {
     user_vs_extended(&S_USER, &S_SYS)
 }
 
+const S_USERH: Spec = Spec { sys: L_A, user: Some(L_AB_AB), cats: CATS_MIX, unk_mult: &[1, 1, 1], nr: 2, nl: 2 };
+const S_SYSH: Spec = Spec { sys: L_A_AB_AB, user: None, cats: CATS_MIX, unk_mult: &[1, 1, 1], nr: 2, nl: 2 };
+
+//@ c08_user_homographs {"desc":"two user rows sharing a surface are two candidates, exactly like the same rows in the system lexicon: system {a} + user {ab,ab} vs system {a,ab,ab}","bounds":"N=2 \"ab\"; 2x2 matrix; 3 unknown entries","symbolic":"all costs, ids, matrix cells (shared)","functions":["Tokenizer::add_lattice_edges","Lexicon::common_prefix_iterator","Postings::ids"],"fs":2048,"unwind":8,"timeout":1800,"mem_gb":20}
+#[cfg(kani)]
+#[kani::proof]
+fn c08_user_homographs() {
+    user_vs_extended(&S_USERH, &S_SYSH)
+}
+
 /// letters are *not* invoked when a lexicon word matched (invoke=0): a user match must suppress
 /// unknown words exactly like a system match
 const S_USER0: Spec = Spec { sys: L_B, user: Some(L_AB), cats: CATS_CHAIN, unk_mult: &[1, 1, 1], nr: 2, nl: 2 };
@@ -33,20 +43,22 @@ fn c08_user_match_suppresses_unknown() {
     user_vs_extended(&S_USER0, &S_SYS0)
 }
 
-/// `su`: system lexicon with one word (id 0) + user lexicon {ab} (id 0); `ss`: system lexicon
-/// with the same word as id 0 and `ab` as id 1.
+/// `su`: system lexicon with one word (id 0) + user lexicon of k rows with surface `ab` (ids
+/// 0..k); `ss`: system lexicon with the same word as id 0 and the k rows as ids 1..=k.
 #[cfg(kani)]
 fn user_vs_extended(su: &Spec, ss: &Spec) {
+    let k = su.user.unwrap().nwords;
     let du = dict_of(su);
     // the second dictionary takes every value from the first
     let pa = du.verif_system_lexicon().word_param(WordIdx { lex_type: LexType::System, word_id: 0 });
-    let pab = du.verif_user_lexicon().unwrap().word_param(WordIdx { lex_type: LexType::User, word_id: 0 });
-    let mut params = Vec::with_capacity(2);
+    let mut params = Vec::with_capacity(1 + k);
     params.push(pa);
-    params.push(pab);
-    let mut feats = Vec::with_capacity(2);
+    let mut feats = Vec::with_capacity(1 + k);
     feats.push(feature_of('s', 0));
-    feats.push(feature_of('s', 1));
+    for i in 0..k {
+        params.push(du.verif_user_lexicon().unwrap().word_param(WordIdx { lex_type: LexType::User, word_id: i as u32 }));
+        feats.push(feature_of('s', 1 + i));
+    }
     let sys = Lexicon::verif_from_parts(ss.sys.trie, copy_u32(ss.sys.post), params, feats, LexType::System);
     let mut data = Vec::with_capacity(4);
     for l in 0..2 {
@@ -79,18 +91,18 @@ fn user_vs_extended(su: &Spec, ss: &Spec) {
     }
     // in the user dictionary the word `ab` is offered first at position 0 (user before system),
     // in the extended one after `a`; compare as sets through their prefix minima
-    let mut user_seen = false;
-    for j in 0..4 {
+    let mut user_seen = 0;
+    for j in 0..6 {
         if j < eu[2].len() {
             let n = &eu[2][j];
             if n.lex_type == LexType::User {
-                user_seen = true;
-                assert!(n.word_id == 0 && n.start_word == 0);
+                user_seen += 1;
+                assert!((n.word_id as usize) < k && n.start_word == 0);
                 let mut matched = false;
-                for k in 0..4 {
-                    if k < es2[2].len() {
-                        let m = &es2[2][k];
-                        if m.lex_type == LexType::System && m.word_id == 1 {
+                for q in 0..6 {
+                    if q < es2[2].len() {
+                        let m = &es2[2][q];
+                        if m.lex_type == LexType::System && m.word_id == n.word_id + 1 {
                             matched = true;
                             assert!(m.min_cost == n.min_cost && m.left_id == n.left_id && m.right_id == n.right_id);
                         }
@@ -100,13 +112,13 @@ fn user_vs_extended(su: &Spec, ss: &Spec) {
             }
         }
     }
-    assert!(user_seen, "the user word is not a candidate");
+    assert!(user_seen == k, "not every user row is a candidate (homographs are distinct words)");
     // system words remain available: the system word (id 0) is a candidate with the user
     // lexicon exactly where it is one with the extended system lexicon (it may be unreachable in both)
     let mut in_u = 0;
     let mut in_s = 0;
     for b in 1..=2 {
-        for j in 0..4 {
+        for j in 0..6 {
             if j < eu[b].len() && eu[b][j].lex_type == LexType::System && eu[b][j].word_id == 0 {
                 in_u += 1;
             }
